@@ -17,9 +17,9 @@ import (
 
 	"github.com/NethermindEth/juno/blockchain/networks"
 	"github.com/NethermindEth/juno/core"
-	"github.com/NethermindEth/juno/core/crypto"
 	"github.com/NethermindEth/juno/core/felt"
 
+	"verifharness/internal/refcrypto"
 	"verifharness/internal/refimpl"
 	"verifharness/internal/vh"
 )
@@ -30,6 +30,16 @@ type tempInput struct {
 }
 
 func rf(r *rand.Rand) *felt.Felt { return new(felt.Felt).SetBigInt(randFelt251(r)) }
+
+// rfx is rf with the value-domain dimension: one felt in four is a member of an extreme magnitude class
+// (FeltDomain.tla: >= 2^248, >= 2^250, >= 2^251, p-1, 1).
+func rfx(r *rand.Rand) *felt.Felt {
+	if r.Intn(4) != 0 {
+		return rf(r)
+	}
+	classes := []string{"b248", "b250", "b251", "b251", "pm1", "one"}
+	return magFelt(classes[r.Intn(len(classes))], r.Int63n(1<<40), r.Intn(1<<20))
+}
 
 func mkBlock(r *rand.Rand, ntx int, version string) (*core.Block, *core.StateDiff) {
 	one := felt.NewFromUint64[felt.Felt](1)
@@ -42,7 +52,7 @@ func mkBlock(r *rand.Rand, ntx int, version string) (*core.Block, *core.StateDif
 	for i := 0; i < ntx; i++ {
 		sig := []felt.Felt{}
 		for j := r.Intn(3); j > 0; j-- {
-			sig = append(sig, *rf(r))
+			sig = append(sig, *rfx(r))
 		}
 		tx := &core.InvokeTransaction{TransactionHash: rf(r), TransactionSignature: sig, Version: new(core.TransactionVersion).SetUint64(3)}
 		b.Transactions = append(b.Transactions, tx)
@@ -76,6 +86,11 @@ func TestTempTries(t *testing.T) {
 	out := vh.NewResult()
 	defer out.Write()
 	defer guard(out, "TestTempTries", in)
+	restore, err := refimpl.UseIndependent()
+	if err != nil {
+		t.Fatal(err) // broken machinery, never a verdict
+	}
+	defer restore()
 	seed := in.Seed
 	if seed == 0 {
 		seed = vh.Seed()
@@ -99,7 +114,7 @@ func TestTempTries(t *testing.T) {
 		// (1) raw height-64 insert-only tries, both hash functions, both backends vs refimpl
 		vals := make([]felt.Felt, n)
 		for i := range vals {
-			vals[i] = *rf(r)
+			vals[i] = *rfx(r)
 		}
 		for _, poseidon := range []bool{false, true} {
 			if n > 2000 && !poseidon {
@@ -128,6 +143,12 @@ func TestTempTries(t *testing.T) {
 					return err
 				})
 				out.Done(1, n+1)
+				if err == nil && !got.Equal(&want) {
+					if o := primitiveOutcome(seqKV(vals), 64, poseidon, &want, &got, nil, n, "Hash of a temporary trie"); o != nil {
+						report(o.key, o.what, n, want.String(), got.String())
+						continue
+					}
+				}
 				if err != nil || !got.Equal(&want) {
 					report(fmt.Sprintf("temp-trie-root:%s:%s", be.name, hn),
 						fmt.Sprintf("height-64 temporary trie (%s, %s) over %d sequential keys differs from refimpl.Root (err %v)", be.name, hn, n, err), n, want.String(), got.String())
@@ -176,7 +197,7 @@ func TestTempTries(t *testing.T) {
 					for _, s := range tx.Signature() {
 						elems = append(elems, s)
 					}
-					leaves[i] = crypto.PoseidonArray(elems)
+					leaves[i] = refcrypto.PoseidonMany(ptrs(elems)...)
 				}
 				want := refimpl.Root(seqKV(leaves), 64, refimpl.Poseidon)
 				if !comms[0].TransactionCommitment.Equal(&want) {
@@ -204,6 +225,11 @@ func TestTrieBulk(t *testing.T) {
 	out := vh.NewResult()
 	defer out.Write()
 	defer guard(out, "TestTrieBulk", in)
+	restore, err := refimpl.UseIndependent()
+	if err != nil {
+		t.Fatal(err) // broken machinery, never a verdict
+	}
+	defer restore()
 	seeds := in.Seeds
 	if len(seeds) == 0 {
 		n := 3
@@ -260,7 +286,7 @@ func TestTrieBulk(t *testing.T) {
 			nops := 110 + r.Intn(150)
 			for i := 0; i < nops; i++ {
 				var k *big.Int
-				val := rf(r)
+				val := rfx(r)
 				switch {
 				case len(keys) > 0 && r.Intn(4) == 0: // delete an existing key
 					k = keys[r.Intn(len(keys))]
@@ -293,6 +319,12 @@ func TestTrieBulk(t *testing.T) {
 			}
 			want := refimpl.Root(kv, 251, hash)
 			lroot, err := leg.commit()
+			if err == nil && !lroot.Equal(&want) {
+				if o := primitiveOutcome(kv, 251, v.Poseidon, &want, &lroot, nil, round, "a bulk commit"); o != nil {
+					report(o.key, o.what, round, want.String(), lroot.String())
+					break
+				}
+			}
 			if err != nil || !lroot.Equal(&want) {
 				report("trie-root:legacy:bulk", fmt.Sprintf("core/trie root after a batch of %d updates differs from refimpl.Root (err %v)", nops, err), round, want.String(), lroot.String())
 				bad = true
